@@ -515,6 +515,15 @@ def run(tier, seed, replay=None):
     t0 = time.time()
     r.proof_phase(THEOREMS)
     tim = {"proof_s": round(time.time() - t0, 1)}
+    if tier == "thorough" and not replay:
+        try:
+            t1 = time.time()
+            rc, out = vf.sh(["coqchk", "-o", "-silent", "-Q", vf.COQ, "Echo", "Echo.Props.C08"], timeout=1500)
+            r.phase("P1b_coqchk", ok=(rc == 0), seconds=round(time.time() - t1, 1), tail=out[-300:])
+            if rc:
+                r.is_broken("coqchk", out[-1500:])
+        except Exception as e:
+            r.is_broken("coqchk", repr(e))
     rcases = []
     if replay:
         d = json.load(open(replay))
@@ -526,7 +535,7 @@ def run(tier, seed, replay=None):
         allc = [parse_case(l) for l in vf.load_corpus(PROP)]
         cases = [c for c in allc if c["mode"] != "restart"]
         rcases = [c for c in allc if c["mode"] == "restart"]
-        nrt, nib, nrs = (60, 30, 12) if tier == "quick" else (1500, 500, 300)
+        nrt, nib, nrs = (60, 30, 12) if tier == "quick" else (900, 350, 160)
         for i in range(nrt):
             cases.append(gen_rt(r.rng, tier))
         for i in range(nib):
